@@ -5,6 +5,7 @@ package main
 // verified, which items were present) for TLC to compare with the HAP specification's structure (C04).
 
 import (
+	gocontext "context"
 	"bytes"
 	"crypto/ed25519"
 	"encoding/json"
@@ -16,6 +17,7 @@ import (
 	"time"
 
 	"github.com/brutella/hc/accessory"
+	"github.com/brutella/hc/hap"
 
 	"hcverif/ref"
 )
@@ -107,6 +109,8 @@ func runHonest(b Beh, seed int64, big bool) []J {
 		Code string `json:"code"`
 		Mode string `json:"mode"`
 		NReq int    `json:"nreq"`
+		RV   int    `json:"rv"` // pair-verify runs again inside the session, this many times
+		KA   bool   `json:"ka"` // the accessory sends keep-alives (every 200 microseconds) during the whole run
 	}
 	if len(b.Steps) > 0 {
 		json.Unmarshal(b.Steps[0], &st)
@@ -135,6 +139,11 @@ func runHonest(b Beh, seed int64, big bool) []J {
 		return h.lines
 	}
 	defer tr.Stop()
+	if st.KA {
+		kctx, kcancel := gocontext.WithCancel(gocontext.Background())
+		defer kcancel()
+		go hap.NewKeepAlive(200*time.Microsecond, tr.Ctx).Start(kctx)
+	}
 	// pre-existing storage contents: other controllers already paired
 	for i := 0; i < rng.Intn(3); i++ {
 		tr.seedPairing(ref.NewIdentity(randomName(rng), rndFunc(rng)))
@@ -259,7 +268,7 @@ func runHonest(b Beh, seed int64, big bool) []J {
 		return h.lines
 	}
 	apub, _ := t.Get(ref.TagPublicKey)
-	o := J{"name": "V2", "http": m.Status, "framed": framed(m), "tags": tagsOf(m.Body), "state": t.Byte(ref.TagState), "publen": len(apub), "opens": "none", "inner": []int{}, "sig": "none", "idok": false}
+	o := J{"name": "V2", "nth": 1, "http": m.Status, "framed": framed(m), "tags": tagsOf(m.Body), "state": t.Byte(ref.TagState), "publen": len(apub), "opens": "none", "inner": []int{}, "sig": "none", "idok": false}
 	if len(apub) == 32 {
 		vc.AccPub = apub
 		vc.Shared = vc.Eph.Shared(apub)
@@ -294,13 +303,29 @@ func runHonest(b Beh, seed int64, big bool) []J {
 	}
 	c.Install(sess)
 	c.Sess = nil
-	m, err = c.ReadMsg()
+	// messages the accessory sends of its own accord (keep-alives): framed the way the controller opens them at that point
+	logEvents := func(expected string) {
+		for _, e := range c.TakeEvents() {
+			h.log(J{"name": "event", "framed": framed(e), "expected": expected})
+		}
+	}
+	readResponse := func(expected string) (*ref.Msg, error) {
+		for {
+			m, err := c.ReadMsg()
+			if err != nil || !m.IsEvent() {
+				return m, err
+			}
+			h.log(J{"name": "event", "framed": framed(m), "expected": expected})
+		}
+	}
+	logEvents("plain")
+	m, err = readResponse("plain")
 	if err != nil {
 		h.fail("Structure", "V4: "+err.Error())
 		return h.lines
 	}
 	t, _ = ref.Decode(m.Body)
-	h.log(J{"name": "V4", "http": m.Status, "framed": framed(m), "tags": tagsOf(m.Body), "state": t.Byte(ref.TagState)})
+	h.log(J{"name": "V4", "nth": 1, "http": m.Status, "framed": framed(m), "tags": tagsOf(m.Body), "state": t.Byte(ref.TagState)})
 	if t.Byte(ref.TagState) != 4 || t.Count(ref.TagError) > 0 {
 		return h.lines
 	}
@@ -321,7 +346,7 @@ func runHonest(b Beh, seed int64, big bool) []J {
 		rule = "FirstRequest:" + st.Mode
 	}
 	c.Timeout = 3 * time.Second
-	m, err = c.ReadMsg()
+	m, err = readResponse("enc")
 	if err != nil {
 		h.fail(rule, "first encrypted request not answered: "+err.Error())
 		return h.lines
@@ -334,6 +359,7 @@ func runHonest(b Beh, seed int64, big bool) []J {
 		return h.lines
 	}
 	h.log(J{"name": "resp", "http": m.Status, "want": 200, "framed": framed(m), "bodyok": bodyok, "len": len(m.Body)})
+	logEvents("enc")
 	for k := 1; k < st.NReq; k++ {
 		// request sizes from one frame to many: a PUT with a long list of entries
 		n := []int{1, 5, 40, 200, 900}[rng.Intn(5)]
@@ -354,6 +380,64 @@ func runHonest(b Beh, seed int64, big bool) []J {
 			return h.lines
 		}
 		h.log(J{"name": "resp", "http": m.Status, "want": 200, "framed": framed(m), "bodyok": strings.Contains(string(m.Body), `"value":`), "len": len(m.Body)})
+		logEvents("enc")
+	}
+	// ---- pair-verify again, inside the session: V2 and V4 travel in the session that is being replaced, everything after V4
+	// in the new one
+	for nth := 2; nth <= 1+st.RV; nth++ {
+		vc := &ref.VerifyClient{ID: id, Rnd: rndFunc(rng)}
+		m, t, err := c.PostTLV("/pair-verify", vc.V1())
+		if err != nil {
+			h.fail("SwitchAtomic", fmt.Sprintf("V2 of verification %d: %v", nth, err))
+			return h.lines
+		}
+		logEvents("enc")
+		apub, _ := t.Get(ref.TagPublicKey)
+		o := J{"name": "V2", "nth": nth, "http": m.Status, "framed": framed(m), "tags": tagsOf(m.Body), "state": t.Byte(ref.TagState), "publen": len(apub), "opens": "none", "inner": []int{}, "sig": "none", "idok": false}
+		if len(apub) == 32 {
+			vc.AccPub = apub
+			vc.Shared = vc.Eph.Shared(apub)
+			vc.EncKey = ref.HKDF(vc.Shared[:], []byte("Pair-Verify-Encrypt-Salt"), []byte("Pair-Verify-Encrypt-Info"))
+			if box, ok := t.Get(ref.TagEncrypted); ok {
+				n, plain := openUnder(vc.EncKey[:], box, "PV-Msg02", "PV-Msg03", "PS-Msg06")
+				o["opens"] = n
+				if in, err := ref.Decode(plain); err == nil && plain != nil {
+					o["inner"] = in.Tags()
+					aid, _ := in.Get(ref.TagIdentifier)
+					sig, _ := in.Get(ref.TagSignature)
+					o["sig"] = sigOrder(sc.AccessoryLTPK, sig, map[string][]byte{"accEph": apub, "id": aid, "ctrlEph": vc.Eph.Pub[:]}, [3]string{"accEph", "id", "ctrlEph"})
+					o["idok"] = string(aid) == sc.AccessoryID
+				}
+			}
+		}
+		h.log(o)
+		if o["sig"] != "accEph|id|ctrlEph" {
+			return h.lines
+		}
+		// V3 goes out and V4 comes back in the OLD session
+		if err := c.WriteRaw(ref.BuildRequest("POST", "/pair-verify", ref.CTTLV, vc.V3().Encode())); err != nil {
+			h.fail("SwitchAtomic", "V3: "+err.Error())
+			return h.lines
+		}
+		m, err = readResponse("enc")
+		if err != nil {
+			h.fail("SwitchAtomic", fmt.Sprintf("V4 of verification %d does not open under the session it replaces: %v", nth, err))
+			return h.lines
+		}
+		t, _ = ref.Decode(m.Body)
+		h.log(J{"name": "V4", "nth": nth, "http": m.Status, "framed": framed(m), "tags": tagsOf(m.Body), "state": t.Byte(ref.TagState)})
+		if t.Byte(ref.TagState) != 4 || t.Count(ref.TagError) > 0 {
+			return h.lines
+		}
+		// from here on the new session, both ways
+		c.Upgrade(vc.Shared)
+		m, err = c.Do("GET", fmt.Sprintf("/characteristics?id=1.%d", sw.Switch.On.ID), "", nil)
+		if err != nil {
+			h.fail("SwitchAtomic", fmt.Sprintf("after verification %d the accessory does not talk in the new session: %v", nth, err))
+			return h.lines
+		}
+		h.log(J{"name": "resp", "http": m.Status, "want": 200, "framed": framed(m), "bodyok": strings.Contains(string(m.Body), `"value":`), "len": len(m.Body)})
+		logEvents("enc")
 	}
 	return h.lines
 }
